@@ -23,6 +23,11 @@ use yaml_rust::yaml;
 
 pub use crate::config::*;
 
+/// Address pools are expanded into sets of addresses (when loading policies, and for every request
+/// for the top level `addresses`), so there is a limit to what can be served: a /8.
+pub const MIN_POOL_PREFIXLEN: u8 = 8;
+pub const MAX_POOL_SIZE: u64 = 1 << (32 - MIN_POOL_PREFIXLEN);
+
 #[derive(Debug, Default)]
 pub struct Policy {
     pub match_all: bool,
@@ -470,6 +475,14 @@ impl Config {
                             let end = end.ok_or_else(|| {
                                 Error::InvalidConfig("Missing end in range".into())
                             })?;
+                            if u64::from(u32::from(end)).saturating_sub(u32::from(start).into())
+                                >= MAX_POOL_SIZE
+                            {
+                                return Err(Error::InvalidConfig(format!(
+                                    "apply-range {} to {} is too large for an address pool (more than {} addresses)",
+                                    start, end, MAX_POOL_SIZE
+                                )));
+                            }
                             let addresses = addresses.get_or_insert_with(Vec::new);
                             for i in u32::from(start)..=u32::from(end) {
                                 addresses.push(i.into());
@@ -487,6 +500,12 @@ impl Config {
                             .ok_or_else(|| {
                                 Error::InvalidConfig("apply-subnet cannot be nil".into())
                             })?;
+                        if subnet.prefixlen < MIN_POOL_PREFIXLEN {
+                            return Err(Error::InvalidConfig(format!(
+                                "apply-subnet {}/{} is too large for an address pool (shortest supported prefix length is /{})",
+                                subnet.network(), subnet.prefixlen, MIN_POOL_PREFIXLEN
+                            )));
+                        }
                         let base: u32 = subnet.network().into();
                         let addresses = addresses.get_or_insert_with(Vec::new);
                         for i in 1..((1 << (32 - subnet.prefixlen)) - 1) {
